@@ -130,6 +130,25 @@ _scope(
 )
 
 
+# 7. datatype pressure: six datatypes, two per statement, against tables of 3 and 4
+_DT = [f"http://d/{i}" for i in range(6)]
+_scope(
+    "dtpressure",
+    [
+        (L("x", None, _DT[0]), AP, L("x", None, _DT[1])),
+        (L("x", None, _DT[2]), AP, L("x", None, _DT[3])),
+        (L("x", None, _DT[4]), AP, L("x", None, _DT[5])),
+        (L("y", None, _DT[1]), AP, L("x", None, _DT[4])),
+        (AX, AP, L("x", None, _DT[0])),
+        (L("x", None, _DT[3]), AP, L("y", None, _DT[3])),
+    ],
+    [(8, 0, 3), (8, 1, 3), (8, 1, 4), (4000, 150, 32)],
+    generic_only=True,
+    gnames=[DEFAULT, I("http://a/x"), L("g", None, _DT[5]), B("x"), DEFAULT, L("g", None, _DT[2])],
+    note="three statements use six datatypes: consecutive evictions in a table of 3",
+)
+
+
 def triples(scope: str) -> list:
     return SCOPES[scope]["triples"]
 
